@@ -1,7 +1,11 @@
 mod engine_history;
+mod engine_http;
 mod engine_loader;
+mod engine_mcf;
 mod engine_pipeline;
+mod engine_search;
 mod engine_tour;
+mod engine_transition;
 mod gen_inst;
 mod inst;
 mod ojson;
@@ -19,6 +23,10 @@ fn make_engine(prop: &str, tier: &str) -> Option<Box<dyn Engine>> {
         "C01" | "C02" | "C03" | "C04" | "C05" | "C06" | "C07" | "C16" => Some(Box::new(engine_pipeline::PipelineEngine::new(prop, tier))),
         "C17" => Some(Box::new(engine_loader::LoaderEngine::new(tier))),
         "C12" => Some(Box::new(engine_tour::TourEngine::new(tier))),
+        "C18" => Some(Box::new(engine_http::HttpEngine::new(tier))),
+        "C08" => Some(Box::new(engine_search::SearchEngine::new(tier))),
+        "C14" => Some(Box::new(engine_mcf::McfEngine::new(tier))),
+        "C15" => Some(Box::new(engine_transition::TransitionEngine::new(tier))),
         "C09" | "C10" | "C11" | "C13" => Some(Box::new(engine_history::HistoryEngine::new(prop, tier))),
         _ => None,
     }
@@ -30,44 +38,72 @@ fn budget(prop: &str, tier: &str) -> (u32, u32, u64) {
     match prop {
         "C01" | "C02" | "C03" | "C04" | "C05" | "C07" | "C16" => {
             if thorough {
-                (6000, 14, 3600)
+                (8000, 14, 7200)
             } else {
-                (420, 14, 900)
+                (1008, 14, 900)
             }
         }
         "C06" => {
             if thorough {
-                (10000, 14, 3600)
+                (12000, 14, 7200)
             } else {
-                (504, 14, 900)
+                (1008, 14, 900)
             }
         }
         "C09" | "C10" | "C13" => {
             if thorough {
-                (40000, 14, 3600)
+                (60000, 14, 7200)
             } else {
-                (1512, 14, 900)
+                (6006, 14, 900)
             }
         }
         "C11" => {
             if thorough {
-                (2000, 14, 3600)
+                (4000, 14, 7200)
             } else {
-                (154, 14, 900)
+                (1400, 14, 900)
+            }
+        }
+        "C15" => {
+            if thorough {
+                (150000, 14, 7200)
+            } else {
+                (10010, 14, 900)
+            }
+        }
+        "C08" => {
+            if thorough {
+                (6000, 14, 7200)
+            } else {
+                (1008, 14, 900)
+            }
+        }
+        "C18" => {
+            if thorough {
+                (600, 8, 7200)
+            } else {
+                (64, 8, 900)
+            }
+        }
+        "C14" => {
+            if thorough {
+                (40000, 14, 7200)
+            } else {
+                (5012, 14, 900)
             }
         }
         "C12" => {
             if thorough {
-                (5000, 14, 3600)
+                (8000, 14, 7200)
             } else {
-                (308, 14, 900)
+                (1008, 14, 900)
             }
         }
         "C17" => {
             if thorough {
-                (60000, 14, 3600)
+                (100000, 14, 7200)
             } else {
-                (2002, 14, 900)
+                (6006, 14, 900)
             }
         }
         _ => (100, 4, 600),
